@@ -16,11 +16,11 @@ def hole_pairs(chk, texts, per_text, maxlen=160):
     return pairs
 
 
-def holes_textfn(pairs, mode_of=None):
+def holes_textfn(pairs, mode_of=None, insert=False):
     def textfn(ex):
         i = harness.choose_index(ex, "pair", len(pairs))
         s, p = pairs[i]
-        return harness.text_with_holes(ex, s, [p], 1)
+        return harness.text_with_holes(ex, s, [p], 1, insert=insert)
     return textfn
 
 
@@ -78,7 +78,23 @@ def main():
     chk.run("A-holes k=1", harness.A_harness(holes_textfn(pairs), path_oracles=("c03",)),
             f"{len(pairs)} (seed, position) pairs with one symbolic character substituted; seeds = repo test data + test literals + xonsh forms",
             wall=150 if chk.quick else 1500, vacuity=("ok", "SyntaxError"))
-    cut_src = seeds.sample(chk.rng, xs + py, 40 if chk.quick else 400)
+    FSEEDS = ["f'{x!r}'\n", "f'{x!s:>5}'\n", 'print(f"{a[0]}")\n', 'f"""{\nx}"""\n', "f'{x:{w}}'\n", "f'{x}' 'y'\n", "a?.b?\n", "x = p'a' f'{b}'\n"]
+    ipairs = hole_pairs(chk, FSEEDS + (seeds.sample(chk.rng, xs, 15) + seeds.sample(chk.rng, py, 10) if chk.quick else xs + py), 4 if chk.quick else 0, 100)
+    chk.run("A-holes insert k=1", harness.A_harness(holes_textfn(ipairs, insert=True), path_oracles=("c03",)),
+            f"{len(ipairs)} (seed, position) pairs with one symbolic character INSERTED (f-string conversions/specs, help chains, xonsh and Python seeds)",
+            wall=150 if chk.quick else 1500, vacuity=("ok", "SyntaxError"))
+    # the recursion clause: nesting families far beyond the interpreter's recursion head-room (concrete, through the oracle)
+    from symx import oracles as _o
+    for fam in ("(", "[", "{", "f(", "$(", "lambda: ", "not ", "-", "a if b else "):
+        for d in (30, 100, 300):
+            closer = {"(": ")", "[": "]", "{": "}", "f(": ")", "$(": ")"}.get(fam, "")
+            src = fam * d + "1" + closer * d + "\n"
+            v = _o.c03(repo().real, src, "exec")
+            chk.validated += 1
+            if v is not None:
+                chk.add_candidate({"oracle": "c03", "args": [src, "exec"], "kwargs": {}, "v": v})
+    chk.extra["nesting_families"] = "9 families x depths 30/100/300"
+    cut_src = FSEEDS + seeds.sample(chk.rng, xs + py, 40 if chk.quick else 400)
     cut_src = [s for s in cut_src if len(s) < 120]
     tf, ncuts = cut_textfn(cut_src)
     chk.run("A-prefixes", harness.A_harness(tf, path_oracles=("c03",)), f"every proper prefix of {len(cut_src)} seeds ({ncuts} cuts, chosen by a symbolic index)",
